@@ -6,6 +6,7 @@ import (
 	"os"
 	"path/filepath"
 	"sync/atomic"
+	"time"
 
 	"github.com/semafind/semadb/cluster"
 	"github.com/semafind/semadb/models"
@@ -87,13 +88,21 @@ func NewClusterNode(root string, me NodeSpec, servers []string, o ClusterOpts, s
 		if err := c.Serve(); err != nil {
 			return nil, err
 		}
-		// wait until the RPC port accepts connections
-		for i := 0; i < 2000; i++ {
+		// Serve binds the RPC port in a goroutine of its own. Wait until the port accepts connections:
+		// only then does a later Close release the port synchronously (a node closed before its
+		// listener exists binds and releases the port some time after Close returned, and a node
+		// restarted on that address meanwhile dies in log.Fatal with "address already in use")
+		deadline := time.Now().Add(30 * time.Second)
+		for {
 			conn, err := net.Dial("tcp", me.Name())
 			if err == nil {
 				conn.Close()
 				break
 			}
+			if time.Now().After(deadline) {
+				return nil, fmt.Errorf("node %s does not accept connections: %v", me.Name(), err)
+			}
+			time.Sleep(200 * time.Microsecond)
 		}
 	}
 	return c, nil
